@@ -476,7 +476,8 @@ def _any_expr(dbmodel, expression):
 
 
 def _all_expr(dbmodel, expression):
-    derived = expression.args[0].where(1, 0).min() >= data_algebra.expr_rep.Value(1)
+    # if_else (not where): a NULL item is ignored, as in Pandas, instead of counting as False
+    derived = expression.args[0].if_else(1, 0).min() >= data_algebra.expr_rep.Value(1)
     return dbmodel.expr_to_sql(derived, want_inline_parens=True)
 
 
